@@ -22,6 +22,8 @@ type PropConfig struct {
 	NotCovered []string `json:"not_covered"`
 	Bounded   []string `json:"bounded"`
 	TrivialLoopInvariants bool `json:"trivial_loop_invariants"`
+	NoDependencies bool `json:"no_dependencies"`
+	SkipClosures bool `json:"sweep_skip_closures"`
 }
 
 type PropsFile struct {
@@ -255,6 +257,9 @@ func cmdCheck(args []string) int {
 	for _, dir := range pc.SweepPkgs {
 		for k, fn := range e.funcs {
 			if fn.Pkg != nil && e.byPath[fn.Pkg.Pkg.Path()] != nil && e.byPath[fn.Pkg.Pkg.Path()].Dir == dir {
+				if pc.SkipClosures && fn.Parent() != nil {
+					continue
+				}
 				if strings.HasSuffix(e.fileOf(fn), "_test.go") || strings.HasSuffix(e.fileOf(fn), "testing.go") || fn.Synthetic != "" || e.fileOf(fn) == "" {
 					continue
 				}
@@ -282,6 +287,7 @@ func cmdCheck(args []string) int {
 		Contract    bool     `json:"under_contract"`
 		Inlined     []string `json:"inlined_callees,omitempty"`
 		Error       string   `json:"error,omitempty"`
+		Dependency  bool     `json:"verified_as_dependency,omitempty"`
 	}
 	var fsum []fnSummary
 	total, discharged, known := 0, 0, 0
@@ -295,10 +301,53 @@ func cmdCheck(args []string) int {
 	var undecided []string
 	usedFindings := map[int]bool{}
 
-	for _, k := range keys {
+	// dependency closure: contracted callees whose contracts the property's functions rely on
+	isDep := map[string]bool{}
+	queue := append([]string(nil), keys...)
+	keys = nil
+	for len(queue) > 0 {
+		k := queue[0]
+		queue = queue[1:]
+		keys = append(keys, k)
 		fr := e.verifyFunc(k)
-		rs := solveFunc(fr, opts)
-		sum := fnSummary{Func: k, Paths: fr.NPaths, Contract: e.funcSpecs[k] != nil, Inlined: fr.Inlined, Error: fr.Err}
+		if fr.Err != "" && swept[k] && e.funcSpecs[k] != nil {
+			// sweep properties do not depend on the functional contract: retry without it
+			saved := e.funcSpecs[k]
+			delete(e.funcSpecs, k)
+			fr2 := e.verifyFunc(k)
+			e.funcSpecs[k] = saved
+			if fr2.Err == "" || strings.HasPrefix(fr2.Err, "unsupported") {
+				fr = fr2
+			}
+		}
+		fopts := opts
+		if isDep[k] {
+			prop := *prop
+			fopts.Select = func(o *Obl) bool {
+				if isStructural(o.Name) {
+					return true
+				}
+				for _, t := range o.Tags {
+					if t == prop {
+						return true
+					}
+				}
+				return false
+			}
+		}
+		rs := solveFunc(fr, fopts)
+		if !pc.NoDependencies {
+			for _, u := range fr.UsedSpecs {
+				sp := e.funcSpecs[u]
+				if sp == nil || sp.Trusted || !sp.IsFunctional() || e.funcs[u] == nil || funcSet[u] {
+					continue
+				}
+				funcSet[u] = true
+				isDep[u] = true
+				queue = append(queue, u)
+			}
+		}
+		sum := fnSummary{Func: k, Paths: fr.NPaths, Contract: e.funcSpecs[k] != nil, Inlined: fr.Inlined, Error: fr.Err, Dependency: isDep[k]}
 		for _, a := range fr.Assumptions {
 			assume[a] = true
 		}
